@@ -167,7 +167,6 @@ std::string doCsv(const std::vector<std::string>& a) {
       r = p.deserialize(out, l[0]);
       J = 1;
       while (r && J < K) {
-        if (out.empty() && !l[J].empty()) return head + " used=" + udec(J) + " hazard=emptyback";
         r = p.deserialize_next(out, l[J]);
         ++J;
       }
@@ -175,14 +174,12 @@ std::string doCsv(const std::vector<std::string>& a) {
     return head + " used=" + udec(J) + " ret=" + (r ? "1" : "0") + errpos(p) + " out=" + listenc(out);
   }
   if (op == "feed" || op == "feedraw") {
-    bool guard = (op == "feed");
     std::vector<std::string> L = listdec(arg(a, 4));
     if (L.empty()) throw BadArg("feed needs a line");
     std::vector<std::string> out;
     std::string rets;
     rets.push_back(p.deserialize(out, L[0]) ? '1' : '0');
     for (size_t i = 1; i < L.size(); ++i) {
-      if (guard && out.empty() && !L[i].empty()) return "rets=" + rets + " hazard=emptyback";
       rets.push_back(p.deserialize_next(out, L[i]) ? '1' : '0');
     }
     return "rets=" + rets + errpos(p) + " out=" + listenc(out);
@@ -245,8 +242,10 @@ std::string doU8(const std::vector<std::string>& a) {
   if (op == "at" || op == "atraw") {
     OptInt P = intdec(arg(a, 3));
     if (P.null) return "rerr invalid";
+    /* plugin_utf8.cpp case At: `if (*a0.integer() < 0 || (uint64_t)*a0.integer() >= (uint64_t)u->Size()) throw INDEX_RANGE`
+       (transcribed; the real plugin's `at` is driven through blocprobe by vlib/props/c18f.py, family u8.plugin_at) */
+    if ((int64_t)P.v < 0 || (uint64_t)P.v >= (uint64_t)u.Size()) return "rerr range";
     size_t pos = (size_t)(int64_t)P.v;
-    if (op == "at" && pos >= u.Size()) return "hazard oob";
     volatile utf8helper::codepoint c = u[pos];
     return "ok I:" + dec((int64_t)c);
   }
